@@ -196,12 +196,108 @@ def prune_and_listing(chk, prog):
             pats=[(__import__('re').compile(r'^\(\*?github\.com/prometheus/client_golang/prometheus\.'), prom_any)])
 
 
+def request_parameters(chk, prog):
+    """grpc/faults.go: the parameter set a call is matched against is exactly {service: method} plus the string fields of THAT request -
+    nothing left over from an earlier message that went through the pooled map (unary, stream receive and stream send entry points)"""
+    G = 'go.6river.tech/mmmbbb/grpc.'
+    pool = []
+
+    def pool_get(ex, args, name):
+        if pool:
+            return Iface('map[string]string', pool.pop())
+        return Iface('map[string]string', MapObj())      # what the pool's New does: make(faults.Parameters)
+
+    def pool_put(ex, args, name):
+        v = args[1]
+        pool.append(v.v if isinstance(v, Iface) else v)
+        return None
+
+    class FD(Opaque):
+        def __init__(self, name):
+            Opaque.__init__(self, 'fielddesc', fname=name)
+
+        def go_invoke(self, ex, method, a):
+            if method == 'Kind':
+                return 9          # protoreflect.StringKind
+            if method == 'Cardinality':
+                return 1          # Optional
+            if method in ('TextName', 'Name'):
+                return self.fname
+            if method == 'JSONName':
+                return self.fname
+            if method == 'FullName':
+                return 'pkg.Msg.' + self.fname
+            raise Unsupported('FieldDescriptor.' + method)
+
+    class Refl(Opaque):
+        def __init__(self, fields):
+            Opaque.__init__(self, 'protoreflect')
+            self.fields = fields
+
+        def go_invoke(self, ex, method, a):
+            if method == 'Range':
+                for n, v in self.fields:
+                    if not ex.branch(ex.call_value(a[0], [Iface('model.fd', FD(n)), Opaque('pvalue', s=v)])):
+                        break
+                return None
+            raise Unsupported('protoreflect.Message.' + method)
+
+    class Msg(Opaque):
+        def __init__(self, fields):
+            Opaque.__init__(self, 'protomsg')
+            self.fields = fields
+
+        def go_implements(self, ex, at, need):
+            return True
+
+        def go_invoke(self, ex, method, a):
+            if method == 'ProtoReflect':
+                return Iface('model.refl', Refl(self.fields))
+            raise Unsupported('ProtoMessage.' + method)
+
+    def value_string(ex, args, name):
+        return args[0].s
+
+    class Stream(Opaque):
+        def go_invoke(self, ex, method, a):
+            return None
+
+    def harness(ex, ob):
+        del pool[:]
+        m1 = Msg([('subscription', z3.String('m1.subscription')), ('topic', z3.String('m1.topic'))])
+        m2 = Msg([('name', z3.String('m2.name'))])
+        fs = ex.zero(F + 'Set')
+        ex.setf(fs, 'faults', MapObj())
+        fsp = ex.new_ptr(fs)
+        entry = ex.choose(3)
+        if entry == 0:
+            icpt = ex.call_named(G + 'UnaryFaultInjector', [fsp])
+            INFO = 'google.golang.org/grpc.UnaryServerInfo'
+            info = ex.new_ptr(ex.new_struct(INFO, FullMethod='/svc/Method'))
+            ex.call_value(icpt, [stdlib.new_context(ex), Iface('model.msg', m1), info, PyFunc(lambda e, a: (None, None), 'handler')])
+        else:
+            st = ex.new_ptr(ex.new_struct(G + 'faultingStream', ServerStream=Iface('model.stream', Stream('stream')), faults=fsp, service='svc', method='Method'))
+            ex.call_named('(*' + G + 'faultingStream).' + ('RecvMsg' if entry == 1 else 'SendMsg'), [st, Iface('model.msg', m1)])
+        p2 = ex.call_named(G + 'paramsFromProtoMessage', ['svc', 'Method', Iface('model.msg', m2)])
+        keys = [k for k, v in p2.ents]
+        d = lambda m: {'first_entry_point': ['unary interceptor', 'stream RecvMsg', 'stream SendMsg'][entry], 'keys_seen_by_second_call': [str(k) for k in keys]}
+        ob.verify(ex, 'second-call-sees-only-its-own-request', sorted(str(k) for k in keys) == sorted(['svc', 'name', 'pkg.Msg.name']), d)
+        for k, v in p2.ents:
+            if k == 'name':
+                ob.verify(ex, 'field-value-is-the-request-value', ex.eq(v, m2.fields[0][1]), d)
+    chk.run('request-parameters:nothing-leaks-through-the-pool', prog, harness, bounds={'messages': 2, 'entry points': 3},
+            intr={'(*sync.Pool).Get': pool_get, '(*sync.Pool).Put': pool_put, '(google.golang.org/protobuf/reflect/protoreflect.Value).String': value_string},
+            pats=[(__import__('re').compile(r'^\(\*?github\.com/prometheus/client_golang/prometheus\.'), prom_any)], parallel=False)
+    chk.assumptions.append('protoreflect is modelled: a message is a list of singular string fields (Kind, Cardinality, names); sync.Pool hands back the object that was put last')
+
+
 if __name__ == '__main__':
     chk = Check('C18')
     prog = load_program()
     chk.repo_hash = prog.repo_hash
     subset_match(chk, prog)
     prune_and_listing(chk, prog)
+    request_parameters(chk, prog)
     concurrent_count(chk, prog, 2, 1)
     concurrent_count(chk, prog, 3, 1)
     concurrent_count(chk, prog, 2, 2)
@@ -211,5 +307,5 @@ if __name__ == '__main__':
     chk.assumptions += ['sync/atomic operations are sequentially consistent single events; the schedule is a total order (integer timestamps) over them',
                         'each thread is executed symbolically once; values read are initial count minus the decrements ordered before (an SMT constraint), so all interleavings are decided by the solver, not enumerated',
                         'sync.RWMutex only delimits the read-locked scan (no writer runs concurrently in this obligation: Add/prune are covered sequentially)',
-                        'paramsFromProtoMessage (protoreflect) is outside the claim']
+                        'real protoreflect descriptors of the generated messages are outside the claim (modelled)']
     chk.finish()
